@@ -18,8 +18,9 @@ Proof.
 Qed.
 
 (* ---- parameters that a rebuild resets: only the listed ones (a repair may shorten the list, nothing may join it) *)
-Definition lossy_allowed : list (cls * Z) :=
-  [(CZero, k_dtype); (CZero, k_device); (CChol, k_upper); (CKronTriangular, k_upper)].
+(* (the four entries of the pinned tree - Zero dtype / device, Chol upper, KroneckerProductTriangular upper - have been
+   repaired: the list is empty and must stay empty) *)
+Definition lossy_allowed : list (cls * Z) := [].
 Definition cz_eqb (a b : cls * Z) : bool := cls_eqb (fst a) (fst b) && Z.eqb (snd a) (snd b).
 Definition lossy_listed (p : cls * Z) : bool := existsb (cz_eqb p) lossy_allowed.
 
@@ -44,15 +45,16 @@ Proof.
   apply cls_eqb_eq in E1. apply Z.eqb_eq in E2. subst. exact Hl.
 Qed.
 
-(* every keyword a class's constructor forwards survives: it is neither lossy nor consumed *)
-Lemma classes_without_lossy_params : forall c, In c lib_classes ->
-  ~ In c [CZero; CChol; CKronTriangular] -> lossy_params c = [].
+(* no constructor of a library class keeps a parameter as an attribute without forwarding it *)
+Lemma classes_without_lossy_params : forall c, In c lib_classes -> lossy_params c = [].
 Proof.
-  intros c Hc Hn. destruct (lossy_params c) as [|k r] eqn:E; [reflexivity|]. exfalso.
+  intros c Hc. destruct (lossy_params c) as [|k r] eqn:E; [reflexivity|]. exfalso.
   assert (Hk : In k (lossy_params c)) by (rewrite E; now left).
-  pose proof (lossy_params_listed c k Hc Hk) as H. simpl in H.
-  apply Hn. simpl. repeat destruct H as [H|H]; try (inversion H; subst; tauto); tauto.
+  exact (lossy_params_listed c k Hc Hk).
 Qed.
+(* ... nor does the minimal user subclass: attributes never depend on the default dtype *)
+Lemma no_attr_params_all : forall c, lossy_params c = [].
+Proof. destruct c; vm_compute; reflexivity. Qed.
 
 (* ---- overrides of the copy / conversion / representation methods (gen/Overrides.v, from the imported classes) *)
 Open Scope string_scope.
@@ -61,18 +63,20 @@ Open Scope string_scope.
    direct predicates only) *)
 Definition modelled_overrides : list (cls * string) :=
   [ (CIdentity, "to"); (CIdentity, "type"); (CIdentity, "dtype"); (CIdentity, "device");
-    (CZero, "dtype"); (CZero, "device");
+    (CZero, "to"); (CZero, "type"); (CZero, "dtype"); (CZero, "device");
     (CKronAddedDiag, "evaluate_kernel"); (CAddedDiag, "evaluate_kernel"); (CLowRankRootAddedDiag, "evaluate_kernel");
     (CMul, "representation"); (CMul, "representation_tree");
     (CCat, "to"); (CCat, "device"); (CInterpolated, "to"); (CMasked, "to");
-    (CPermutation, "dtype"); (CTransposePermutation, "type"); (CTransposePermutation, "dtype");
+    (CPermutation, "to"); (CPermutation, "dtype"); (CTransposePermutation, "type"); (CTransposePermutation, "dtype");
     (CTransposePermutation, "device") ].
-(* overrides that the repairs of listed findings add (proposed_fixes/C14-zero-dtype-lost, C14-perm-to-float-raises) *)
-Definition repair_overrides : list (cls * string) := [ (CZero, "to"); (CZero, "type"); (CPermutation, "to") ].
+(* (the overrides added by the repairs of the pinned tree's findings - Zero.to / Zero.type / Permutation.to - are now
+   transcribed by the model: nothing is tolerated without being modelled) *)
+Definition repair_overrides : list (cls * string) := [].
 (* the overrides Model.meth_call / dtype_of rely on: they must still be there *)
 Definition required_overrides : list (cls * string) :=
-  [ (CIdentity, "to"); (CIdentity, "type"); (CIdentity, "dtype"); (CZero, "dtype"); (CCat, "to"); (CInterpolated, "to");
-    (CMasked, "to"); (CPermutation, "dtype"); (CTransposePermutation, "type"); (CTransposePermutation, "dtype") ].
+  [ (CIdentity, "to"); (CIdentity, "type"); (CIdentity, "dtype"); (CZero, "to"); (CZero, "type"); (CZero, "dtype");
+    (CCat, "to"); (CInterpolated, "to"); (CMasked, "to"); (CPermutation, "to"); (CPermutation, "dtype");
+    (CTransposePermutation, "type"); (CTransposePermutation, "dtype") ].
 
 Definition cs_eqb (a b : cls * string) : bool := cls_eqb (fst a) (fst b) && String.eqb (snd a) (snd b).
 Definition cs_mem (p : cls * string) (l : list (cls * string)) : bool := existsb (cs_eqb p) l.
@@ -95,4 +99,49 @@ Qed.
 Lemma overrides_required : forall p, In p required_overrides -> In p overrides.
 Proof.
   intros p H. destruct overrides_checked as [_ B]. rewrite forallb_forall in B. apply cs_mem_in. exact (B _ H).
+Qed.
+
+(* ---- syntactic shape of every definition of a copy / conversion method (gen/Overrides.v method_shapes):
+   no definition of to / type / clone / detach / cpu / cuda / double / float / half - neither the generic ones of
+   LinearOperator nor an override - may return `self` (or a local alias of it), leave early under a test of
+   self.dtype / self.device, or assign an attribute of `self`, except the documented ones *)
+Definition shape := (bool * bool * bool)%type.
+Definition shape_plain (s : shape) : bool := match s with (false, false, false) => true | _ => false end.
+Definition shape_eqb (a b : shape) : bool :=
+  match a, b with (a1, a2, a3), (b1, b2, b3) => Bool.eqb a1 b1 && Bool.eqb a2 b2 && Bool.eqb a3 b3 end.
+(* TransposePermutationLinearOperator.type:  self._dtype = dtype; return self   (known finding C14-transperm-type-in-place) *)
+Definition documented_shapes : list (string * string * shape) :=
+  [ ("TransposePermutationLinearOperator", "type", (true, false, true)) ].
+Definition row_eqb (a b : string * string * shape) : bool :=
+  String.eqb (fst (fst a)) (fst (fst b)) && String.eqb (snd (fst a)) (snd (fst b)) && shape_eqb (snd a) (snd b).
+Definition shape_listed (r : string * string * shape) : bool := shape_plain (snd r) || existsb (row_eqb r) documented_shapes.
+(* the generic methods every class inherits must be in the table (the scan saw them) *)
+Definition base_methods : list string := ["to"; "type"; "clone"; "detach"; "cpu"; "double"; "float"].
+Definition base_present (m : string) : bool := existsb (row_eqb ("LinearOperator", m, (false, false, false))) method_shapes.
+
+Lemma method_shapes_checked : forallb shape_listed method_shapes = true /\ forallb base_present base_methods = true.
+Proof. vm_compute. split; reflexivity. Qed.
+
+Lemma row_eqb_eq a b : row_eqb a b = true -> a = b.
+Proof.
+  destruct a as [[o m] [[a1 a2] a3]], b as [[o' m'] [[b1 b2] b3]]. unfold row_eqb, shape_eqb. simpl. intros H.
+  apply andb_prop in H as [H S3]. apply andb_prop in H as [H1 H2].
+  apply andb_prop in S3 as [S3 E3]. apply andb_prop in S3 as [E1 E2].
+  apply String.eqb_eq in H1. apply String.eqb_eq in H2.
+  apply Bool.eqb_prop in E1. apply Bool.eqb_prop in E2. apply Bool.eqb_prop in E3.
+  subst. reflexivity.
+Qed.
+
+Lemma method_shapes_documented : forall o m s, In (o, m, s) method_shapes ->
+  s = (false, false, false) \/ In (o, m, s) documented_shapes.
+Proof.
+  intros o m s H. destruct method_shapes_checked as [A _]. rewrite forallb_forall in A. specialize (A _ H).
+  unfold shape_listed in A. apply orb_prop in A as [A|A].
+  - left. simpl in A. destruct s as [[[|] [|]] [|]]; try discriminate A. reflexivity.
+  - right. apply existsb_exists in A as [r [Hr E]]. apply row_eqb_eq in E. subst r. exact Hr.
+Qed.
+Lemma base_methods_plain : forall m, In m base_methods -> In ("LinearOperator", m, (false, false, false)) method_shapes.
+Proof.
+  intros m H. destruct method_shapes_checked as [_ B]. rewrite forallb_forall in B. specialize (B _ H).
+  unfold base_present in B. apply existsb_exists in B as [r [Hr E]]. apply row_eqb_eq in E. subst r. exact Hr.
 Qed.
